@@ -1694,6 +1694,10 @@ def b_type(fr, args, kw, n):
     return fr.I.opaque("type()")
 
 
+def operator_index_concrete(v):
+    import operator as _op
+    return _op.index(v)
+
 def key_atoms(fr, key):
     """atoms an abstract dictionary key depends on (an int / finite function / tuple of those), or None when it is not of that kind"""
     I = fr.I
@@ -2659,6 +2663,12 @@ def external(fr, name, args, kw, n):
             return int(x) if isinstance(x, bool) else x
         if isinstance(x, AOpq):
             return x
+        if isinstance(x, AFin):
+            return fin_lift(operator_index_concrete, x)       # a truth value / small integer selected by a few input bits
+        if isinstance(x, ACond):
+            return fr.to_int(x)
+        if is_abs(x) and not isinstance(x, (ABits, AObj, AEnum)):
+            raise Abort(f"operator.index of {type(x).__name__} is not modelled")
         raise PathRaise("TypeError", "object cannot be interpreted as an integer")
     if name == "bitarray.util.zeros":
         nbits = fr.cint(args[0] if args else kw.get("length"))
